@@ -1,6 +1,8 @@
 from vlib import runner, sysprops
 
-PARTIAL = ['the run-level monitor-acceptance theorem may be partial; see evidence.theorems']
+PARTIAL = [
+    'ids, counters and time are unbounded Nat in the model: wrap-around of the 64-bit request id after 2^64 calls is outside the theorems',
+]
 
 
 def run(tier, seed, replay):
